@@ -189,7 +189,8 @@ def _bad_op(rng, sh, k, corrupt_fn=None):
              "ref_clash", "ref_clash", "hdr_multi", "rename_malformed", "del_id", "placeholder_clash",
              "invalid_then_rm", "self_mention", "unknown_then_clash", "hdr_bad_predefined", "header_add",
              "grp_jstring", "unknown_then_malformed", "set_field_none", "stale_handle", "stale_handle",
-             "anonymise_mentioned", "grp_edit", "grp_edit", "deep_nest", "refused_new_tag", "queued_then_flush"]
+             "anonymise_mentioned", "grp_edit", "grp_edit", "deep_nest", "refused_new_tag", "queued_then_flush",
+             "inplace_ref_line", "inplace_ref_line"]
     kind = rng.choice(kinds)
     tags = gen_tags(rng, k)
     if kind == "refused_new_tag" and ids:
@@ -418,6 +419,16 @@ def _bad_op(rng, sh, k, corrupt_fn=None):
             fld = rng.choice(["sid1", "sid2", "beg1", "end1", "items", "sid", "beg2", "external", "external"])
         tgt = {"text": rng.choice(sh.anon)} if (sh.anon and rng.random() < 0.5) else {"id": rng.choice(ids or ["x"])}
         op = {"op": "set_field", "field": fld, "value": rng.choice(["A", "+", "-", "*", "3M", "A+", "0"])}
+        op.update(tgt)
+        return kind, op
+    if kind == "inplace_ref_line" and (sh.anon or ids):
+        if v == "gfa1":
+            fld = rng.choice(["segment_names", "segment_names", "links"])
+        else:
+            fld = rng.choice(["sid1", "sid2", "items", "sid", "external", "external"])
+        tgt = {"text": rng.choice(sh.anon)} if (sh.anon and rng.random() < 0.5) else {"id": rng.choice(ids or ["x"])}
+        op = {"op": "set_field", "field": fld, "inplace": "line", "idx": rng.randint(0, 3),
+              "value": rng.choice((segs or ["A"]) + ["zz9", "r9"])}
         op.update(tgt)
         return kind, op
     if kind == "bad_tagname" and (ids or sh.anon):
